@@ -30,6 +30,7 @@ SENSITIVITY = {
     "MC_Features_sens_compatExact.cfg": "FlagMonotone",
     "MC_Features_sens_latestEditionFirst.cfg": "LatestEditionRule",
     "MC_Features_sens_nightlyUnderflow.cfg": "ParseTotal",
+    "MC_Features_sens_fnptrOverrideUngated.cfg": "SiteSound",
 }
 STRICT = ["MC_Features_strict_constructs.cfg"]
 CONSTRUCTS = {"unsafe_extern", "offset_of", "cstr_literal", "const_cstr", "core_ffi_c", "core_ffi_cstr",
@@ -83,6 +84,29 @@ extern "C" unsigned char c_linkage(signed char);
 TRIG_CPP_ARGS = ["--use-core", "--generate-cstr"]
 TRIG_CPP_CLANG = ["-x", "c++", "--target=x86_64-unknown-linux-gnu"]
 TRIG_CPP_TRIGGERS = {"unsafe_extern", "offset_of", "core_ffi_c"}
+
+
+# the ABI sites of Features.tla (AbiSites) that TRIG_C does not have: --override-abi reaching function
+# POINTER types through the name of a typedef, a field or a parameter
+TRIG_FP = """\
+typedef void (*ovr_unwind_cb)(int code);
+typedef int (*ovr_efi_cb)(void *image);
+typedef void (*ovr_this_cb)(void *self_);
+typedef float (*ovr_vec_cb)(float x);
+struct ovr_handlers {
+    ovr_unwind_cb a; ovr_efi_cb b; ovr_this_cb c; ovr_vec_cb d;
+    void (*ovr_unwind_field)(int code);
+    int (*ovr_efi_field)(void *image);
+    void (*ovr_this_field)(void *self_);
+    float (*ovr_vec_field)(float x);
+};
+void install(void (*ovr_unwind_param)(int code), int (*ovr_efi_param)(void *image),
+             void (*ovr_this_param)(void *self_), float (*ovr_vec_param)(float x));
+"""
+TRIG_FP_ARGS = ["--override-abi", "ovr_unwind_.*=C-unwind", "--override-abi", "ovr_efi_.*=efiapi",
+                "--override-abi", "ovr_this_.*=thiscall", "--override-abi", "ovr_vec_.*=vectorcall"]
+TRIG_FP_CLANG = ["--target=x86_64-unknown-linux-gnu"]
+TRIG_FP_TRIGGERS = {"abi:C-unwind", "abi:efiapi", "abi:thiscall", "abi:vectorcall"}
 
 
 def version_string(form, n):
@@ -177,9 +201,9 @@ def judge(rec, ob, triggers):
             viol.append(("unsupported-edition-accepted:%s" % rec["eopt"], wit))
         if rec["parse"] == "ok" and rec["gen"] == "ok":
             pred = set(rec["predicted"]) & triggers
-            if seen != pred:
+            if seen & triggers != pred:
                 drift.append("constructs differ from the L2 prediction at %s: observed-only %s, predicted-only %s"
-                             % (cfg, sorted(seen - pred), sorted(pred - seen)))
+                             % (cfg, sorted((seen & triggers) - pred), sorted(pred - seen)))
         else:
             drift.append("accepted by the CLI but the L2 model says %s/%s: %s" % (rec["parse"], rec["gen"], cfg))
     else:
@@ -359,6 +383,12 @@ def run(res, tier):
     for r in cpp_recs:
         jobs.append({"id": r["id"], "header": hpp, "opts": TRIG_CPP_ARGS, "clang": TRIG_CPP_CLANG,
                      "targs": target_args(r), "out": os.path.join(d, r["id"] + ".rs")})
+    hfp = os.path.join(d, "trigfp.h")
+    open(hfp, "w").write(TRIG_FP)
+    fp_recs = [dict(r, id="f" + r["id"][1:]) for r in recs if r["form"] in ("1.N", "1.N-nightly", "nightly", "default")]
+    for r in fp_recs:
+        jobs.append({"id": r["id"], "header": hfp, "opts": TRIG_FP_ARGS, "clang": TRIG_FP_CLANG,
+                     "targs": target_args(r), "out": os.path.join(d, r["id"] + ".rs")})
     obs = {}
     with concurrent.futures.ThreadPoolExecutor(max_workers=12) as ex:
         for ob in ex.map(run_cli, jobs):
@@ -386,7 +416,10 @@ def run(res, tier):
 
     agg = {}
     ndrift = 0
-    for rs, trig in ((recs, TRIG_C_TRIGGERS), (cpp_recs, TRIG_CPP_TRIGGERS)):
+    missing = TRIG_FP_TRIGGERS - set(obs["f" + nb["id"][1:]].get("constructs", {}))
+    if missing:
+        raise C.ToolError("function-pointer trigger header does not trigger %s at nightly" % sorted(missing))
+    for rs, trig in ((recs, TRIG_C_TRIGGERS), (cpp_recs, TRIG_CPP_TRIGGERS), (fp_recs, TRIG_FP_TRIGGERS)):
         for r in rs:
             v, dr = judge(r, obs[r["id"]], trig)
             for k, det in v:
@@ -400,7 +433,7 @@ def run(res, tier):
 
     # defaults: no --rust-target == newest known stable release with its newest edition
     latest = tables["latest"]
-    for rs in (recs, cpp_recs):
+    for rs in (recs, cpp_recs, fp_recs):
         by = {(r["form"], r["n"], r["eopt"]): r for r in rs}
         for eopt in (0, 2018, 2021, 2024):
             dflt, expl = by[("default", 0, eopt)], by[("1.N", latest, eopt)]
